@@ -447,6 +447,24 @@ def _generated(shard, res: Result):
                         res.violation("key", ["generated-roundtrip:" + cname, mi.full_name.rsplit(".", 1)[-1], "raised:" + type(e).__name__],
                                       f"{mi.full_name} [{shard['opts'] or 'default'}]: {e!r}", ww)
                         continue
+                    # every message-typed field / map value that came back must be an instance of the class generated for
+                    # ITS declared type (a name collision between fields must not make one field borrow another's class)
+                    from ..values import attr_names as _an
+                    names_ = _an(cls)
+                    for fi in mi.fields:
+                        inner = fi.map_value if fi.label == "map" else fi
+                        if inner.kind != "message" or inner.wkt or fi.number not in names_ or fi.number not in tree:
+                            continue
+                        try:
+                            v = getattr(back, names_[fi.number])
+                        except AttributeError:
+                            continue
+                        want_cls = b.bp_class(inner.type_name)
+                        vals = list(v.values()) if fi.label == "map" else (list(v) if fi.label == "repeated" else [v])
+                        wrong = [type(x).__name__ for x in vals if x is not None and type(x) is not want_cls]
+                        if wrong:
+                            res.violation("key", ["generated-roundtrip:" + cname, "message-class-of-field", "wrong-class"],
+                                          f"{mi.full_name}.{fi.name} [{shard['opts'] or 'default'}]: from_dict built {wrong[:3]} where {want_cls.__name__} is declared", ww)
                     if not same:
                         res.counters["generated_roundtrip_differs"] += 1
                         lost = [k for k in d if k not in back.to_dict(casing=getattr(bp.Casing, cname))]
